@@ -1,4 +1,5 @@
 import BstreamVerif.Lemmas.ForkStep
+import BstreamVerif.Lemmas.CursorLib
 /-!
 LIB discovery with hold-until-LIB (the configuration of ForkableHub): before a LIB is known nothing is delivered; the
 block whose declared LIB resolves to a stored ancestor `L` makes `L` the LIB, delivers the chain from `L` (exclusive)
@@ -336,14 +337,27 @@ end BstreamVerif.Forkable
 namespace BstreamVerif.Forkable
 open BstreamVerif BstreamVerif.ForkDB
 
+/-- the cursor LIB of a New or Irreversible event is never above the event's block (C04) -/
+def CursorLibOK (evs : List Event) : Prop :=
+  ∀ e ∈ evs, (e.step = .new ∨ e.step = .irreversible) → e.lib.num ≤ e.blk.num
+
+theorem irrEvents_lib_self (cfg : Config) (seg : List Entry) (head : Ref) (actual : Id → Option Blk) :
+    ∀ e ∈ irrEvents cfg seg head actual, e.lib = e.blk.ref := by
+  intro e he
+  unfold irrEvents at he
+  split at he
+  · obtain ⟨i, hi, rfl⟩ := List.getElem_of_mem he
+    simp
+  · simp at he
+
 /-- what the step that may discover the LIB leaves behind -/
 def DiscoveryStep (U : Id → Option Blk) (b : Blk) (s' : FState) (evs : List Event) : Prop :=
   (PreInv U s' ∧ evs = []) ∨
   (s'.db.libRef = b.ref ∧ evs.map sbOf = [(Step.new, b), (Step.irreversible, b)] ∧ Inv s' [] ∧ Inv2 U [b.id] s'.db ∧
-    HeadU U s') ∨
+    HeadU U s' ∧ CursorLibOK evs) ∨
   (∃ (L : Blk) (news : List Blk), L.id = s'.db.libRef.id ∧
     evs.map sbOf = news.map (fun x => (Step.new, x)) ++ (if news = [] then [] else [(Step.irreversible, L)]) ∧
-    linkedBlks L.id news ∧ Inv s' (news.map (·.id)) ∧ Inv2 U [L.id] s'.db ∧ HeadU U s')
+    linkedBlks L.id news ∧ Inv s' (news.map (·.id)) ∧ Inv2 U [L.id] s'.db ∧ HeadU U s' ∧ CursorLibOK evs)
 
 theorem isSent_false_of_unsent (db : DB) (h : ∀ e ∈ db.entries, e.sent = false) (x : Id) : isSent db x = false := by
   unfold isSent
@@ -507,10 +521,37 @@ theorem discovery_switch (cfg : Config) (hnew : cfg.matches .new = true) (hundo 
           exact hp.1)
     obtain ⟨_, _, hadvevs, hadvdb, hadvI⟩ := hadv
     have herid : er.blk.id = R.id := find_id _ _ er hfer
+    -- C04: the New events carry the discovered LIB, strictly below the delivered blocks; Irreversible events carry themselves
+    have hcl : CursorLibOK (finish (advanceAcc cfg a b (some er))).2.1 := by
+      show CursorLibOK (advanceAcc cfg a b (some er)).evs
+      obtain ⟨t, ht, hg⟩ := advanceAcc_evs_sub cfg a b (some er)
+      rw [ht]
+      intro e he hstep
+      rcases List.mem_append.mp he with he | he
+      · have hsw := emitSwitch_switchEvs cfg s3 b (c0 :: cs0) [] [] none none
+        rw [hea] at hsw
+        obtain ⟨_, hlibe⟩ := hsw.2 e he
+        have hcur : cursorLIB s3 = R := by
+          unfold cursorLIB
+          have : s3.lastLIBSeen = Ref.empty := by rw [← hs3]; exact hP.seenEmpty
+          rw [this, hs3lib]; rfl
+        have hm : sbOf e ∈ a.evs.map sbOf := List.mem_map_of_mem he
+        rw [hevs] at hm
+        obtain ⟨x, hx, hxe⟩ := List.mem_map.mp hm
+        have hblk : e.blk = x.blk := by
+          have := congrArg Prod.snd hxe; simpa [sbOf] using this.symm
+        obtain ⟨e0, h0, _, hnum0⟩ := hfa x hx
+        have hab := heights_path db2 hh2 R.id R.num _ (by rw [← hlib2]; rw [hlib2]; exact hp)
+          (by have := hh2.2.1; rw [hlib2] at this; exact this) x.blk.id (List.mem_map.mpr ⟨x, hx, rfl⟩) e0 h0
+        rw [hlibe, hcur, hblk, ← hnum0]; omega
+      · rcases hg e he with ⟨_, h2⟩ | h1
+        · rw [h2]; exact Nat.le_refl _
+        · rw [h1] at hstep; rcases hstep with hstep | hstep <;> cases hstep
     right; right
     refine ⟨er.blk, (c0 :: cs0).map (·.blk), ?_, ?_, ?_, ?_, ?_, ?_⟩
     rotate_right
     · -- the head block is the stored entry of the incoming block
+      refine ⟨?_, hcl⟩
       show HeadU U (advanceAcc cfg a b (some er)).st
       intro l hl
       rw [advanceAcc_lastSent, hlastSent] at hl
@@ -592,7 +633,7 @@ theorem discovery_nochain (U : Id → Option Blk) (hU : UOK U) (s : FState) (b :
   have herid : er.blk.id = R.id := find_id _ _ er hfer
   right; right
   refine ⟨er.blk, [], by simp only; rw [hlib2, herid], by simp, trivial, ?_, by rw [herid]; exact hJ2,
-    by intro l hl; simp only at hl; rw [hP.noLast] at hl; cases hl⟩
+    (by intro l hl; simp only at hl; rw [hP.noLast] at hl; cases hl), (by intro e he; cases he)⟩
   refine ⟨by simp only; rw [hlib2]; exact hRne, hw2, hh2, trivial, by simp, by simp, ?_, ?_, ?_, ?_, Or.inl hP.seenEmpty⟩
   · intro l hl; simp only at hl; rw [hP.noLast] at hl; cases hl
   · intro _; exact ⟨rfl, hns2⟩
@@ -680,9 +721,20 @@ theorem discovery_initial (cfg : Config) (hnew : cfg.matches .new = true) (hirr 
   rw [hfinst, hfinevs]
   refine ⟨by simp only [initSt, Bool.false_eq_true, if_false]; rw [hs'db, hlib2], ?_, ?_, ?_, ?_⟩
   rotate_right
-  · intro l hl'
-    simp only [initSt, Option.some.injEq] at hl'
-    exact ⟨b, by rw [← hl']; exact hbU, by rw [← hl']⟩
+  · refine ⟨?_, ?_⟩
+    · intro l hl'
+      simp only [initSt, Option.some.injEq] at hl'
+      exact ⟨b, by rw [← hl']; exact hbU, by rw [← hl']⟩
+    · -- C04: the New event carries the block itself as LIB (it is its own LIB), the Irreversible event too
+      intro e he _
+      simp only [List.mem_append, List.mem_singleton] at he
+      rcases he with rfl | he
+      · have : cursorLIB s' = b.ref := by
+          unfold cursorLIB
+          have : s'.lastLIBSeen = Ref.empty := by rw [← hs']; exact hP.seenEmpty
+          rw [this, hs'db, hlib2]; rfl
+        simp only [this]; exact Nat.le_refl _
+      · rw [irrEvents_lib_self cfg _ _ _ e he]; exact Nat.le_refl _
   · rw [List.map_append, irrEvents_sb cfg hirr]
     simp [sbOf]
   · apply inv_seen _ _ _ _ (by simp only [initSt, Bool.false_eq_true, if_false]; rw [hs'db, hlib2])
